@@ -39,30 +39,24 @@ theorem itemsEncode_cons (it : Bytes) (items : List Bytes) :
     itemsEncode (it :: items) = [0, 0, b8 it.length] ++ it ++ itemsEncode items := by
   simp [itemsEncode]
 
-theorem pathDecodeItems_succ (d : Bytes) (n pos : Nat) (prev : Option Bytes) :
-    pathDecodeItems d (n + 1) pos prev =
+theorem pathDecodeItems_succ (d : Bytes) (n pos : Nat) :
+    pathDecodeItems d (n + 1) pos =
       (let rem := d.length - pos
        if rem < 3 then .err
        else
          let l := ((d.drop (pos + 2)).headD 0).toNat
          if 3 + l ≤ rem then
            let name := (d.drop (pos + 3)).take l
-           match pathDecodeItems d n (pos + 3 + l) (some name) with
+           match pathDecodeItems d n (pos + 3 + l) with
            | .ok is => .ok (name :: is)
            | r => r
          else if pos + 3 + l > scanBufCap then .panic
-         else
-           match prev with
-           | none => .err
-           | some name =>
-             match pathDecodeItems d n pos prev with
-             | .ok is => .ok (name :: is)
-             | r => r) := rfl
+         else .err) := rfl
 
 theorem pathDecodeItems_encode (items : List Bytes) (h : ∀ it ∈ items, it.length < 256)
-    (pre : Bytes) (prev : Option Bytes) :
-    pathDecodeItems (pre ++ itemsEncode items) items.length pre.length prev = .ok items := by
-  induction items generalizing pre prev with
+    (pre : Bytes) :
+    pathDecodeItems (pre ++ itemsEncode items) items.length pre.length = .ok items := by
+  induction items generalizing pre with
   | nil => simp [pathDecodeItems]
   | cons it items ih =>
     have hit : it.length < 256 := h it (by simp)
@@ -105,7 +99,7 @@ theorem pathDecode_encode (items : List Bytes) (h : ∀ it ∈ items, it.length 
   rw [this]
   have hd : (be16 items.length ++ itemsEncode items).drop 2 = itemsEncode items := by simp [be16]
   rw [hd]
-  have := pathDecodeItems_encode items h [] none
+  have := pathDecodeItems_encode items h []
   simpa using this
 
 end Mobius
